@@ -146,7 +146,7 @@ def run_property(pid, harnesses, tier, obligations=(), assumptions=(), outside=(
     hinfo = []
     for name, (h, cfile, info, gen) in prepared.items():
         hinfo.append(dict(harness=name, family=h.fam.name, inst_tu=os.path.relpath(h.fam.src, core.VERIF), roots=h.roots, functions_encoded=info['translated'],
-                          functions=info['funcs'][:40], stubs=h.stubs, noinline=h.fam.noinline, externals=info['ext'][:60], cbmc_opts=h.opts, shapes=len(h.shapes),
+                          functions=info['funcs'][:40], stubs=h.stubs, cuts=info.get('cuts', [])[:40], noinline=h.fam.noinline, externals=info['ext'][:60], cbmc_opts=h.opts, shapes=len(h.shapes),
                           timeout_s=h.timeout, mem_gb=h.mem_gb, note=h.note))
     ev = dict(property_id=pid, tier=tier, seed=seed, level=level, wall_s=round(wall, 1), violations=len(violations),
               coverage=dict(evaluations=len(results), distinct_nontrivial=len({(r['harness'], r['shape']) for r in nontriv}),
